@@ -30,12 +30,16 @@ type traceReport struct {
 	Err     string           `json:"err,omitempty"`
 }
 
-// c13TraceChild: vh c13trace <dir> <seed> <sync> <bps>
+// c13TraceChild: vh c13trace <dir> <seed> <sync> <bps> <io>
 func c13TraceChild(args []string) int {
 	dir := args[0]
 	seed, _ := strconv.ParseUint(args[1], 10, 64)
 	sm, _ := strconv.Atoi(args[2])
 	bps, _ := strconv.Atoi(args[3])
+	iot := 0
+	if len(args) > 4 {
+		iot, _ = strconv.Atoi(args[4])
+	}
 	rep := traceReport{Written: map[string]int64{}, Syncs: map[string]int64{}}
 	io := mon.NewIOLog()
 	io.Track = dir
@@ -51,7 +55,7 @@ func c13TraceChild(args []string) int {
 		}
 	}
 	defer io.Install()()
-	cfg := core.Config{IndexType: 3, ShardNum: 4, FileIO: 0, DataFileSize: 16 << 10, Sync: byte(sm), BytesPerSync: uint(bps)}
+	cfg := core.Config{IndexType: 3, ShardNum: 4, FileIO: byte(iot), DataFileSize: 16 << 10, Sync: byte(sm), BytesPerSync: uint(bps)}
 	res := core.Result{}
 	s := core.NewSession(dir, cfg, &res)
 	s.IO = io
@@ -62,6 +66,15 @@ func c13TraceChild(args []string) int {
 	} else {
 		for i := 0; i < 120 && !s.Dead; i++ {
 			s.Exec(g.Next())
+			if i%25 == 24 && s.DB != nil {
+				// a backup in the middle: under mmap it flushes, unmaps and shrinks every file
+				bdir := dir + fmt.Sprintf("-bk%d", i)
+				if err := s.DB.Backup(bdir); err != nil {
+					rep.Err = "backup: " + err.Error()
+				}
+				os.RemoveAll(bdir)
+				s.Exec(core.Op{Kind: "sync"})
+			}
 		}
 		if s.DB != nil {
 			s.Close()
@@ -76,6 +89,13 @@ func c13TraceChild(args []string) int {
 }
 
 var (
+	stMmap    = regexp.MustCompile(`^(\d+)\s+mmap\(.*MAP_SHARED, (\d+)<([^>]*)>, \S+\)\s+=\s+(0x[0-9a-f]+)`)
+	stMsync   = regexp.MustCompile(`^(\d+)\s+msync\((0x[0-9a-f]+), .*\)\s+=\s+(-?\d+)`)
+	stMmapU   = regexp.MustCompile(`^(\d+)\s+mmap\(.*MAP_SHARED, (\d+)<([^>]*)>, \S+ <unfinished`)
+	stMmapR   = regexp.MustCompile(`^(\d+)\s+<\.\.\. mmap resumed>\)\s+=\s+(0x[0-9a-f]+)`)
+	stMsyncU  = regexp.MustCompile(`^(\d+)\s+msync\((0x[0-9a-f]+), .*<unfinished`)
+	stMsyncR  = regexp.MustCompile(`^(\d+)\s+<\.\.\. msync resumed>\)\s+=\s+(-?\d+)`)
+	stMunmap  = regexp.MustCompile(`^(\d+)\s+munmap\((0x[0-9a-f]+),`)
 	stLine    = regexp.MustCompile(`^(\d+)\s+(write|fsync|fdatasync)\((\d+)<([^>]*)>(.*)$`)
 	stResumed = regexp.MustCompile(`^(\d+)\s+<\.\.\. (write|fsync|fdatasync) resumed>.*=\s+(-?\d+)`)
 	stRet     = regexp.MustCompile(`=\s+(-?\d+)(?:\s|$)[^=]*$`)
@@ -83,6 +103,7 @@ var (
 
 // runStraceCase runs the child under strace and compares.
 func runStraceCase(c core.Case, w *core.Worker, syncMode, bps int) core.Result {
+	iot := int(c.Seed % 2) // half of the cross-checks run on the mmap back-end
 	res := core.Result{}
 	dir := w.Dir("tr")
 	out := filepath.Join(w.Root(), "strace.out")
@@ -92,8 +113,8 @@ func runStraceCase(c core.Case, w *core.Worker, syncMode, bps int) core.Result {
 		res.Note = "strace not available"
 		return res
 	}
-	cmd := exec.Command("strace", "-f", "-y", "-s", "0", "-e", "trace=write,fsync,fdatasync", "-o", out,
-		exe, "c13trace", dir, fmt.Sprint(c.Seed), fmt.Sprint(syncMode), fmt.Sprint(bps))
+	cmd := exec.Command("strace", "-f", "-y", "-s", "0", "-e", "trace=write,fsync,fdatasync,mmap,munmap,msync", "-o", out,
+		exe, "c13trace", dir, fmt.Sprint(c.Seed), fmt.Sprint(syncMode), fmt.Sprint(bps), fmt.Sprint(iot))
 	cmd.Env = append(os.Environ(), "GORACE=halt_on_error=0")
 	stdout, err := cmd.Output()
 	if err != nil {
@@ -136,8 +157,49 @@ func runStraceCase(c core.Case, w *core.Worker, syncMode, bps int) core.Result {
 			kSyncs[filepath.Base(path)]++
 		}
 	}
+	mapped := map[string]string{} // address -> path of a shared file mapping
+	pendMmap := map[string]string{}
+	pendMsync := map[string]string{}
 	for sc.Scan() {
 		l := sc.Text()
+		if m := stMmap.FindStringSubmatch(l); m != nil {
+			mapped[m[4]] = m[3]
+			continue
+		}
+		if m := stMsync.FindStringSubmatch(l); m != nil {
+			if p, ok := mapped[m[2]]; ok && m[3] == "0" && filepath.Dir(p) == dir {
+				kSyncs[filepath.Base(p)]++
+			}
+			continue
+		}
+		if m := stMmapU.FindStringSubmatch(l); m != nil {
+			pendMmap[m[1]] = m[3]
+			continue
+		}
+		if m := stMmapR.FindStringSubmatch(l); m != nil {
+			if p, ok := pendMmap[m[1]]; ok {
+				mapped[m[2]] = p
+				delete(pendMmap, m[1])
+			}
+			continue
+		}
+		if m := stMsyncU.FindStringSubmatch(l); m != nil {
+			pendMsync[m[1]] = m[2]
+			continue
+		}
+		if m := stMsyncR.FindStringSubmatch(l); m != nil {
+			if a, ok := pendMsync[m[1]]; ok {
+				if p, ok2 := mapped[a]; ok2 && m[2] == "0" && filepath.Dir(p) == dir {
+					kSyncs[filepath.Base(p)]++
+				}
+				delete(pendMsync, m[1])
+			}
+			continue
+		}
+		if m := stMunmap.FindStringSubmatch(l); m != nil {
+			delete(mapped, m[2])
+			continue
+		}
 		if m := stLine.FindStringSubmatch(l); m != nil {
 			if strings.Contains(m[5], "<unfinished") {
 				pending[m[1]] = pend{m[2], m[4]}
@@ -158,6 +220,9 @@ func runStraceCase(c core.Case, w *core.Worker, syncMode, bps int) core.Result {
 		}
 	}
 	res.Add("strace_runs", 1)
+	if iot == 1 {
+		res.Add("strace_runs_mmap", 1)
+	}
 	files := map[string]bool{}
 	for k := range rep.Written {
 		files[k] = true
@@ -175,13 +240,18 @@ func runStraceCase(c core.Case, w *core.Worker, syncMode, bps int) core.Result {
 		res.Add("strace_files_compared", 1)
 		res.Add("strace_write_bytes", kWritten[name])
 		res.Add("strace_fsyncs", kSyncs[name])
-		if kWritten[name] != rep.Written[name] {
+		if iot == 0 && kWritten[name] != rep.Written[name] {
 			res.Violate(fmt.Sprintf("instrumentation cross-check: %s: the kernel saw %d bytes written, the hook log says %d", name, kWritten[name], rep.Written[name]),
 				map[string]string{"class": "sync-policy", "rule": "strace-bytes"}, map[string]any{"hook": rep, "strace_written": kWritten, "strace_fsyncs": kSyncs})
 			break
 		}
-		if kSyncs[name] != rep.Syncs[name] {
-			res.Violate(fmt.Sprintf("instrumentation cross-check: %s: the kernel saw %d successful fsync calls, the hook log has %d completed sync events", name, kSyncs[name], rep.Syncs[name]),
+		if kSyncs[name] > rep.Syncs[name] {
+			// more flushes than the hooks report are harmless for the policy (and keep the
+			// parser's blind spots from becoming alarms); fewer are what matters
+			res.Add("strace_extra_kernel_syncs", kSyncs[name]-rep.Syncs[name])
+		}
+		if kSyncs[name] < rep.Syncs[name] {
+			res.Violate(fmt.Sprintf("instrumentation cross-check (io %d): %s: the kernel saw %d successful fsync/msync calls, the hook log has %d completed sync events", iot, name, kSyncs[name], rep.Syncs[name]),
 				map[string]string{"class": "sync-policy", "rule": "strace-fsync"}, map[string]any{"hook": rep, "strace_written": kWritten, "strace_fsyncs": kSyncs})
 			break
 		}
